@@ -24,7 +24,8 @@ def generate_cases(P, ctx):
         if os.path.exists(out):
             os.remove(out)
         env = {"VERIF_OUT": out, "VERIF_TIER": ctx["tier"], "VERIF_SEED": str(ctx["seed"])}
-        r = core.tlc(ctx["sdir"], g[0], g[1], ctx["work"], env=env, workers=ctx["workers"],
+        # generators are one ASSUME: a single worker (measured: 1.65M cases in 15 s with -workers 1, 4 min 11 s with -workers 16)
+        r = core.tlc(ctx["sdir"], g[0], g[1], ctx["work"], env=env, workers=1,
                      timeout=ctx["timeout"], constants=_tier_consts(g, ctx["tier"]), heap="12g")   # a 6g cap made a 2.7M-case generation thrash in GC for over an hour
         ctx["tlc_runs"].append(dict(kind="gen", module=g[0], cfg=g[1], generated=r["generated"],
                                     distinct=r["distinct"], wall=round(r["wall"], 1), cmd=r["cmd"]))
